@@ -94,9 +94,11 @@ func (fs *filestore) Add(bucket string, filename string, contents []byte, meta *
 		return fmt.Errorf("could not write:  %s: %w", f, err)
 	}
 
+	verifYield("fs.add.content")
 	// Force a new modification time, since this is what Generation is based on.
 	now := time.Now().UTC()
 	_ = os.Chtimes(f, now, now)
+	verifYield("fs.add.mtime")
 
 	InitScrubbedMeta(meta, filename)
 	meta.Metageneration = 1
